@@ -16,7 +16,9 @@
     markup_parse_flag_only_at_code markup_parse_off_no_exec markup_parse_off_rejects
     markup_parse_off_error_kind text_parse_flag_only_at_code text_parse_off_no_exec
     text_parse_off_rejects
+    lru_history_disabled_no_exec lru_later_load_rejects_code lru_cache_stays_code_free
 -/
+import Genshi.Lemmas.ExecLru
 import Genshi.Lemmas.ExecRaise
 import Genshi.Lemmas.ExecParse
 namespace Genshi.Props.C14
@@ -708,6 +710,58 @@ example : RootOk (.pluginFile .markup) exFs3 0 :=
 
 example : (run 2 2 ⟨.dflt, .dflt, .str ['O', 'f', 'F'], false⟩ (.pluginFile .markup) exFs3 0 []).err
     = some (.syntax 1) := by decide
+
+/-! ### the bounded loader cache: templates evicted and parsed again
+
+  The graph theorems above run on a loader whose cache never evicts (`ExecGraph.load`).  The
+  three below are about `ExecLru` — `max_cache_size = cap` with least-recently-used eviction, for
+  **every** `cap` (0 and 1 included): the assumption "fewer files than the cache bound" is gone.
+  `_prepared` memoisation only removes loader calls; the model asks the loader on every
+  `generate()`, i.e. it re-parses at least as often as the code. -/
+section Lru
+open Genshi.Exec
+
+/-- the state of a fresh `TemplateLoader(allow_exec=False, auto_reload=ar)` satisfies the invariant -/
+theorem st0_mclean (fs : FS) (ar : Bool) : MClean fs (st0 false ar) :=
+  ⟨rfl, fun p hp => by simp [st0] at hp⟩
+
+/-- **Disabled on every later load, whatever was evicted.**  Through a loader whose flag is off,
+    any history of load-and-render calls — any names, asked for in any class, over any include
+    graph (cycles, diamonds, both include modes), with any cache bound — never moves the sentinel:
+    a template that was loaded before, evicted and is parsed again is parsed under the same flag. -/
+theorem lru_history_disabled_no_exec (cap fuel pf : Nat) (fs : FS) (ar : Bool) (hist : List (Nat × Cls)) :
+    (runHistoryB cap fuel pf fs (st0 false ar) hist).1.sentinel = [] :=
+  (runHistoryB_clean cap fuel pf fs hist _ (st0_mclean fs ar)).2
+
+/-- … and the cache never holds a template with a code block, at any point of any history: every
+    cached template is the code-free parse of the file of its name. -/
+theorem lru_cache_stays_code_free (cap fuel pf : Nat) (fs : FS) (ar : Bool) (hist : List (Nat × Cls)) :
+    ∀ p ∈ (runHistoryB cap fuel pf fs (st0 false ar) hist).1.cache, noCode p.2.items = true ∧
+      ∃ f, fs.lookup p.1.1 = some f ∧ p.2.items = f.items :=
+  (runHistoryB_clean cap fuel pf fs hist _ (st0_mclean fs ar)).1.2
+
+/-- **Loading such a template raises, also later.**  After any such history, loading a file that
+    contains a code block fails — never loaded, or loaded-and-rejected before, or (for its code-free
+    neighbours) evicted in between, it makes no difference; asked for in the language it is
+    written in, the error is the `TemplateSyntaxError` of that file. -/
+theorem lru_later_load_rejects_code (cap fuel pf : Nat) (fs : FS) (ar : Bool) (hist : List (Nat × Cls))
+    (name : Nat) (c : Cls) (abs : Bool) (f : File) (hf : fs.lookup name = some f)
+    (hcode : noCode f.items = false) :
+    ∃ e, loadB cap fs (runHistoryB cap fuel pf fs (st0 false ar) hist).1 name c abs = .error e ∧
+      (f.syn = c → e = .syntax name) :=
+  loadB_code_fails cap fs _ name c abs f (runHistoryB_clean cap fuel pf fs hist _ (st0_mclean fs ar)).1 hf hcode
+
+-- non-vacuity: bound 1, three files; 0 includes 1, 2 holds a code block.  Loading 0 caches 1 then
+-- 0 (1 is evicted); loading 1 again re-parses it; 2 is rejected every time; with the flag on the
+-- block of 2 runs.
+def lruFs : FS := [(0, ⟨.markup, [.text 1, .incl 1 .same false]⟩), (1, ⟨.markup, [.text 2]⟩),
+                   (2, ⟨.markup, [.code 9 1]⟩)]
+example : (runHistoryB 1 5 5 lruFs (st0 false false) [(0, .markup), (1, .markup), (2, .markup), (0, .markup), (2, .markup)]).2 =
+    [none, none, some (.syntax 2), none, some (.syntax 2)] := by decide
+example : (runHistoryB 1 5 5 lruFs (st0 false false) [(0, .markup), (1, .markup), (2, .markup)]).1.cache.map (·.1.1) = [1] := by
+  decide
+example : (runHistoryB 1 5 5 lruFs (st0 true false) [(0, .markup), (2, .markup)]).1.sentinel = [9] := by decide
+end Lru
 
 end Genshi.Props.C14
 
